@@ -58,24 +58,32 @@ FORM_ENCODINGS = ['utf-8', 'koi8_r', 'cp1251', 'cp1252', 'utf_8_sig',
                   'latin-1', 'utf-16']
 
 
-def _call_fn(api, text, opts, form, consume):
+def _form_obj(text, form):
     import io
+    enc = None
+    if form == 'sio':
+        obj = io.StringIO(text)
+    elif form == 'bytes':
+        obj = text.encode('utf-8')
+    elif form.startswith('bytes_enc:'):
+        enc = form.split(':', 1)[1]
+        obj = text.encode(enc)
+    elif form == 'tstream':
+        from sim import iofake
+        obj = iofake.SimTextStream(text, {}, iofake.Chan())
+    else:
+        obj = text
+    return obj, enc
+
+
+def _call_fn(api, text, opts, form, consume):
     import sqlparse
 
     def fn():
-        enc = None
-        if form == 'sio':
-            obj = io.StringIO(text)
-        elif form == 'bytes':
-            obj = text.encode('utf-8')
-        elif form.startswith('bytes_enc:'):
-            enc = form.split(':', 1)[1]
-            obj = text.encode(enc)
-        elif form == 'tstream':
-            from sim import iofake
-            obj = iofake.SimTextStream(text, {}, iofake.Chan())
-        else:
-            obj = text
+        obj, enc = _form_obj(text, form)
+        if api == 'parsestream' and consume == 'later':
+            # handled by _call_fn_later(): generator made at ample stack
+            return list(sqlparse.parsestream(obj, enc))
         if api == 'parsestream' and consume is not None:
             g = sqlparse.parsestream(obj, enc)
             out = []
@@ -175,7 +183,7 @@ def draw_case(rng, tier):
         if rng.random() < 0.5:
             prefix = rng.choice(['select 1; ', 'select 1;\n-- x\n', ''])
         if rng.random() < 0.35:
-            consume = rng.choice([1, 2])
+            consume = rng.choice([1, 2, 'later'])
     return {'api': api, 'inp': {'t': 'nest', 'c': c, 'd': d},
             'prefix': prefix, 'opts': opts, 'form': form,
             'consume': consume}
@@ -290,7 +298,8 @@ def needed_refs(spec):
         keys.append(ops.ref_key(f['api'], f['inp'], f['opts'], None))
     if not spec.get('deep'):
         for c in spec['calls']:
-            if c.get('consume') is None and c['inp'].get('d', 0) <= 60 and \
+            if c.get('consume') in (None, 'later') and \
+                    c['inp'].get('d', 0) <= 60 and \
                     len(c['inp'].get('v', '')) < 3000:
                 keys.append(ops.ref_key(c['api'], c['inp'], c['opts'], None))
     return list(dict.fromkeys(keys))
@@ -338,7 +347,7 @@ def check_success(call, text, val):
     if api in ('parse', 'parsestream'):
         stmts = list(val)
         joined = ''.join(canon.flat_text(s) for s in stmts)
-        if call.get('consume') is None:
+        if call.get('consume') in (None, 'later'):
             if joined.rstrip() != text.rstrip():
                 return 'parse result does not reproduce the input text'
         elif not text.startswith(joined):
@@ -389,10 +398,19 @@ def check_success(call, text, val):
 def _do_faulted(call, H, P):
     """Returns (kind, payload): ok/value, sqlparseerror/exc, recursion/exc,
     other/exc."""
+    import sqlparse
     from sqlparse.exceptions import SQLParseError
     text = ops.materialise(call['inp'])
     fn = _call_fn(call['api'], text, call['opts'], call['form'],
                   call.get('consume'))
+    if call['api'] == 'parsestream' and call.get('consume') == 'later':
+        # the pipeline is set up where the stack is ample and only consumed
+        # later, by a caller that is deep in its own stack
+        obj, enc = _form_obj(text, call.get('form') or 'str')
+        gen = sqlparse.parsestream(obj, enc)
+
+        def fn():
+            return list(gen)
     try:
         if H is None:
             v = fn()
@@ -560,7 +578,7 @@ def run(spec, refs):
             ref = refs.get(ops.ref_key(call['api'], call['inp'],
                                        call['opts'], None))
             same = False
-            if ref is not None and call.get('consume') is None:
+            if ref is not None and call.get('consume') in (None, 'later'):
                 o = canon.ok_outcome(call['api'], val)
                 same = canon.same(o, ref)
                 if not same:
